@@ -290,7 +290,7 @@ func voBehaviourRun(t *testing.T, tr *vkTrace, bh voBehaviour) bool {
 	}
 
 	// quiescence: every client returned (or is stuck beyond the deadline) and no worker exists
-	deadline := time.Now().Add(400 * time.Millisecond)
+	deadline := time.Now().Add(5 * time.Second)
 	allReturned := func() bool {
 		for _, c := range clients {
 			if _, ok := returned.Load(c); !ok {
